@@ -146,11 +146,7 @@ class SelectResults(object):
             # handle)
             if (value.start and value.start < 0) \
                or (value.stop and value.stop < 0):
-                if value.start:
-                    if value.stop:
-                        return list(self)[value.start:value.stop]
-                    return list(self)[value.start:]
-                return list(self)[:value.stop]
+                return list(self)[value.start:value.stop]
 
             if value.start:
                 assert value.start >= 0
